@@ -45,8 +45,11 @@ def gap_D(run, ell_maxes, rotors, per_ell, deep=False):
     rng = run.rng
     worst = 0.0
     for L in ell_maxes:
-        w = spherical.Wigner(L)
-        ells = sorted(set([0, 1, 2, 3, L // 2, L - 1, L] + ([rng.randint(4, L) for _ in range(3)] if L > 4 else [])) & set(range(L + 1)))
+        emin = 0
+        if isinstance(L, tuple):      # (ell_max, ell_min): a calculator whose range starts above 0
+            L, emin = L
+        w = spherical.Wigner(L, ell_min=emin)
+        ells = sorted(set([0, 1, 2, 3, emin, emin + 1, L // 2, L - 1, L] + ([rng.randint(4, L) for _ in range(3)] if L > 4 else [])) & set(range(emin, L + 1)))
         for lab, R in rotors:
             try:
                 D = w.D(quaternionic.array(R))
@@ -62,7 +65,7 @@ def gap_D(run, ell_maxes, rotors, per_ell, deep=False):
                 D2 = w.D(quaternionic.array(R), workspace=ws)
                 if not np.array_equal(D2, D, equal_nan=True):
                     k = int(np.flatnonzero(D2 != D)[0])
-                    tr = [t for t in spherical.WignerDrange(0, L) if w.Dindex(*[int(x) for x in t]) == k]
+                    tr = [t for t in spherical.WignerDrange(emin, L) if w.Dindex(*[int(x) for x in t]) == k]
                     ell_k, mp_k, m_k = [int(x) for x in tr[0]]
                     ex = oracle.D_exact(R, ell_k, mp_k, m_k)
                     run.violation("D-differs-from-definition", "Wigner.D", {"ell_max": L, "R": list(R), "ell": ell_k, "mp": mp_k, "m": m_k, "workspace": wsname, **band_info(R)},
@@ -94,8 +97,11 @@ def gap_d(run, ell_maxes, betas, per_ell):
     rng = run.rng
     worst = 0.0
     for L in ell_maxes:
-        w = spherical.Wigner(L)
-        ells = sorted(set([0, 1, 2, L // 2, L]) & set(range(L + 1)))
+        emin = 0
+        if isinstance(L, tuple):
+            L, emin = L
+        w = spherical.Wigner(L, ell_min=emin)
+        ells = sorted(set([0, 1, 2, emin, emin + 1, L // 2, L]) & set(range(emin, L + 1)))
         for lab, z in betas:
             if z.imag < 0:
                 continue
@@ -169,9 +175,11 @@ def check(run):
     gap_D(run, [4, 24] if quick and not deep else ([4, 24, 64] if quick else [4, 24, 64, 128, 256]), rotors, 6 if quick else 10)
     if quick:
         gap_D(run, [128] if not deep else [128, 256], [rotors[0], rotors[9], rotors[14]] + rotors[-2:], 4)   # a large calculator on a few rotors (overflow / accumulation defects appear only there)
-    gap_D(run, [0, 1, 2], rotors[::3], 6)     # the smallest calculators (ell_max = 0 is the lower edge of "all calculator sizes")
+    gap_D(run, [0, 1, 2], rotors[::3], 6)
+    gap_D(run, [(6, 1), (6, 2), (7, 3), (9, 5), (5, 5)], rotors[::4], 6)     # ranges that start at ell_min > 0 (their first block is ell = ell_min)     # the smallest calculators (ell_max = 0 is the lower edge of "all calculator sizes")
     gap_D(run, [12], subnormal_band_rotors(), 6)
     gap_d(run, [0, 1, 16] if quick else [0, 1, 16, 96, 256], betas, 6 if quick else 10)
+    gap_d(run, [(6, 2), (7, 4), (3, 3)], betas[::2], 6)
     run.assumptions += ["numba compiles IEEE operations in source order without contraction (re-measured by the bitwise correspondence every run)",
                         "rounding-error bound K=16 (ell+1) eps is checked by oracle sampling only (no theorem): DESIGN.md §5",
                         "exact arithmetic: the model of Wigner.D / Wigner.d EQUALS the documented formula for every ell, every unit quaternion and every entry (DAll.D_all, d_all on top of DocD.objd_eq_docd); what remains unproved for C01 is only the floating-point error bound, which the mpmath oracle samples"]
